@@ -104,8 +104,8 @@ theorem Inv.resumeOf {s : State} (hI : Inv s) {a : Actor} {n : Nat} {p : Pc} (hp
     · simp only [setPc_box, resumeOf_box, setPc_pc, resumeOf_pc]; grind [upd, updA, Pc.post, Pc.pre]
   case placed => simp only [setPc_pc, resumeOf_pc, setPc_box, resumeOf_box, setPc_node, resumeOf_node, setPc_glist, resumeOf_glist, setPc_lock, resumeOf_lock]; inv_grind
   case freshHolder => simp only [setPc_pc, resumeOf_pc, setPc_box, resumeOf_box]; inv_grind
-  case scanL0 => simp only [setPc_pc, resumeOf_pc]; inv_grind
-  case unlockL0 => simp only [setPc_pc, resumeOf_pc]; inv_grind
+  case scanL0 => unfold ScanL0 at *; simp only [setPc_pc, resumeOf_pc]; inv_grind
+  case unlockL0 => unfold ScanL0 UnlockL0 at *; simp only [setPc_pc, resumeOf_pc]; inv_grind
   case oScanOk => simp only [setPc_pc, resumeOf_pc, setPc_hnext, resumeOf_hnext, setPc_glist, resumeOf_glist]; inv_grind
   case oNoneOk => simp only [setPc_pc, resumeOf_pc, setPc_hnext, resumeOf_hnext, setPc_glist, resumeOf_glist]; inv_grind
   case aUnlockOk => simp only [setPc_pc, resumeOf_pc, setPc_node, resumeOf_node, setPc_glist, resumeOf_glist]; inv_grind
